@@ -21,6 +21,10 @@ type pair struct {
 	setup string           // typed let that declares the storage
 	init  map[string]int64 // initial cell values
 	p     [2]place
+	// wstyle: how a write through a reference to an i32 place is spelled: "" `r = n;`,
+	// "inc" `r++;`, "dec" `r--;`, "add" `r += n;`, "self" `r = r + n;`. A styled pair only
+	// takes the sequences that write through a reference (the others are covered unstyled).
+	wstyle string
 }
 
 const prelude = `import "std/io";
@@ -49,15 +53,50 @@ func allPairs() []pair {
 	iS := map[string]int64{"s.A": 1, "s.B": 2}
 	iA := map[string]int64{"a0": 1, "a1": 2}
 	return []pair{
-		{"same-var", letX, map[string]int64{"x": 1}, [2]place{x, x}},
-		{"disjoint-fields", letS, iS, [2]place{sA, sB}},
-		{"parent-child", letS, iS, [2]place{s, sA}},
-		{"same-field", letS, iS, [2]place{sA, sA}},
-		{"same-index", letA, iA, [2]place{a0, a0}},
-		{"diff-index", letA, iA, [2]place{a0, a1}},
-		{"elem-field", letE, map[string]int64{"e0x": 1}, [2]place{e0x, e0x}},
-		{"child-parent", letS, iS, [2]place{sA, s}},
+		{"same-var", letX, map[string]int64{"x": 1}, [2]place{x, x}, ""},
+		{"disjoint-fields", letS, iS, [2]place{sA, sB}, ""},
+		{"parent-child", letS, iS, [2]place{s, sA}, ""},
+		{"same-field", letS, iS, [2]place{sA, sA}, ""},
+		{"same-index", letA, iA, [2]place{a0, a0}, ""},
+		{"diff-index", letA, iA, [2]place{a0, a1}, ""},
+		{"elem-field", letE, map[string]int64{"e0x": 1}, [2]place{e0x, e0x}, ""},
+		{"child-parent", letS, iS, [2]place{sA, s}, ""},
+		// the same places with the other spellings of a write through a reference
+		{"same-var/inc", letX, map[string]int64{"x": 1}, [2]place{x, x}, "inc"},
+		{"same-var/dec", letX, map[string]int64{"x": 1}, [2]place{x, x}, "dec"},
+		{"same-var/add", letX, map[string]int64{"x": 1}, [2]place{x, x}, "add"},
+		{"same-var/self", letX, map[string]int64{"x": 1}, [2]place{x, x}, "self"},
+		{"disjoint-fields/inc", letS, iS, [2]place{sA, sB}, "inc"},
+		{"disjoint-fields/add", letS, iS, [2]place{sA, sB}, "add"},
+		{"elem-field/inc", letE, map[string]int64{"e0x": 1}, [2]place{e0x, e0x}, "inc"},
+		{"same-index/dec", letA, iA, [2]place{a0, a0}, "dec"},
 	}
+}
+
+// takes: does pair p explore sequence s?
+func (p pair) takes(s seq) bool {
+	if p.wstyle == "" {
+		return true
+	}
+	for _, e := range s {
+		if e.isWriteThru() {
+			return true
+		}
+	}
+	return false
+}
+
+// written gives the value a write-through event at position j leaves in a cell that held old.
+func (p pair) written(old int64, n int64) int64 {
+	switch p.wstyle {
+	case "inc":
+		return old + 1
+	case "dec":
+		return old - 1
+	case "add", "self":
+		return old + n
+	}
+	return n
 }
 
 func (p pair) paths() [2][]string { return [2][]string{p.p[0].path, p.p[1].path} }
@@ -66,12 +105,19 @@ func (p pair) paths() [2][]string { return [2][]string{p.p[0].path, p.p[1].path}
 func body(p pair, s seq) []string {
 	lines := []string{"    " + p.setup}
 	ind := 1
+	copied := false // r2 was bound as a copy of r1: it refers to place 1
 	for j, e := range s {
 		i := e.idx()
 		n := 10 * (j + 1)
 		var l string
 		if i >= 0 {
 			pl := p.p[i]
+			if i == 1 && copied && (e == U2) {
+				pl = p.p[0]
+			}
+			if e == C2s {
+				copied = true
+			}
 			r := fmt.Sprintf("r%d", i+1)
 			ty := "i32"
 			if pl.isStruct {
@@ -80,6 +126,12 @@ func body(p pair, s seq) []string {
 			switch e {
 			case B1s, B2s:
 				l = fmt.Sprintf("let %s: &%s = &%s;", r, ty, pl.expr)
+			case C2s:
+				t1 := "i32"
+				if p.p[0].isStruct {
+					t1 = "S"
+				}
+				l = fmt.Sprintf("let r2: &%s = r1;", t1)
 			case B1m, B2m:
 				l = fmt.Sprintf("let %s: &'%s = &'%s;", r, ty, pl.expr)
 			case U1, U2:
@@ -92,7 +144,18 @@ func body(p pair, s seq) []string {
 				if pl.isStruct {
 					l = fmt.Sprintf("%s.A = %d; %s.B = %d;", r, n, r, n+1)
 				} else {
-					l = fmt.Sprintf("%s = %d;", r, n)
+					switch p.wstyle {
+					case "inc":
+						l = fmt.Sprintf("%s++;", r)
+					case "dec":
+						l = fmt.Sprintf("%s--;", r)
+					case "add":
+						l = fmt.Sprintf("%s += %d;", r, n)
+					case "self":
+						l = fmt.Sprintf("%s = %s + %d;", r, r, n)
+					default:
+						l = fmt.Sprintf("%s = %d;", r, n)
+					}
 				}
 			case R1, R2:
 				if pl.isStruct {
@@ -140,19 +203,35 @@ func expected(p pair, s seq) []string {
 		cell[k] = v
 	}
 	var out []string
+	copied := false
 	for j, e := range s {
 		i := e.idx()
 		if i < 0 {
 			continue
 		}
 		pl := p.p[i]
+		if e == C2s {
+			copied = true
+			continue
+		}
+		if e == U2 && copied {
+			pl = p.p[0]
+		}
 		n := int64(10 * (j + 1))
 		switch e {
 		case U1, U2, R1, R2:
 			for _, c := range pl.cells {
 				out = append(out, fmt.Sprint(cell[c]))
 			}
-		case W1, W2, M1, M2:
+		case W1, W2:
+			for k, c := range pl.cells {
+				if pl.isStruct {
+					cell[c] = n + int64(k)
+				} else {
+					cell[c] = p.written(cell[c], n)
+				}
+			}
+		case M1, M2:
 			for k, c := range pl.cells {
 				cell[c] = n + int64(k)
 			}
